@@ -226,6 +226,20 @@ def run_shard(spec, acc):
                     break
         for i in range(spec["n_stack"]):
             tx = btctx.gen_tx(rng, max_in=3, max_out=3)
+            if rng.random() < 0.3:
+                # a sign that fails half-way (error status or time-out while the transaction
+                # is being handed over) right before: nothing of it may reach the next one
+                from ..simdev.transport import Fault
+                other = btctx.gen_tx(rng, max_in=3, max_out=3)
+                s.bus.arm({rng.randint(1, 4): rng.choice([Fault("sw", sw=0x6A88),
+                                                          Fault("sw", sw=0x6A87),
+                                                          Fault("timeout")])})
+                s.request(rq.sign_auth_request(rq.AUTH_PATHS[0], other["raw"], 0,
+                                               rq.gen_receipt(rng), rq.gen_proof(rng),
+                                               segwit_args(rng)))
+                s.bus.arm({})
+                dev.reset_sign()
+                acc.count("stack_relays_after_a_failed_sign")
             nrec = len(dev.sign_records)
             sw = segwit_args(rng)
             if sw:
